@@ -381,7 +381,7 @@ func c09Scenario(w *vfWorld, r *vfkit.R, idx int) {
 
 func TestVfC09(t *testing.T) {
 	r := vfkit.New("C09")
-	defer r.Flush(true)
+	defer r.Finish()
 	e := vfBoot(vfConfig{Push: true})
 	vfInstallRecorder(e)
 	rng := r.Rand(1)
